@@ -7,6 +7,7 @@ lines inert.  Not decided: memory safety at large, termination, chunking indepen
 from ..facts import AnalysisBroken
 from ..model import sx, walk, is_var, const_of, root_var, vars_in
 from .. import rules, bnd, uar
+from ..report import Remap
 
 EXPLANATION = (
     'Static rules over the line reader iauth_read and everything it dispatches to: (NULLARG) every '
@@ -19,7 +20,11 @@ EXPLANATION = (
     'buffer is freed exactly once per iteration and nothing derived from it is used afterwards; (UAR) no '
     'request pointer is used after a call that may retire it; (GRD.1) the dispatch is reached only with '
     'a freshly looked-up request or a deliberate NULL, and the switch has no emitting default; (WMC.1) the '
-    'input buffer is only ever filled by evbuffer_read and drained by the line splitter.  These are '
+    'input buffer is only ever filled by evbuffer_read and drained by the line splitter; (MPT.3) the argument '
+    'vector is NULL-terminated for the current line whenever a handler is dispatched; (TAB.1) each message\'s '
+    'required word count is established before its parameters are used; (TMR.1/2) the request timer is created '
+    'with the request and destroyed by the table\'s cleanup, and every removal disposes, so no timer fires on a '
+    'freed request.  These are '
     'necessary conditions of the property; memory safety in general, termination and chunking '
     'independence are NOT decided.')
 ASSUMPTIONS = [
@@ -105,6 +110,76 @@ def tokenizer(P, R):
                             idi, why = bnd.classify_store(P, t, u, c2)
                             R.ob('C08.BND.1', bool(idi) and idi != 'skip', u, 'store %s in the tokenizer helper: %s' % (sx(lhs), ('idiom ' + idi + ' [' + why + ']') if idi else why), key='store:%s' % sx(lhs))
     R.floor('C08.BND.1', 3, 'tokenizer stores into argv')
+
+
+MIN_ARGC = {'C': 5, 'N': 2, 'P': 2, 'U': 3, 'n': 2, 'E': 3, 'M': 3, 'X': 4, 'x': 4, '?': 2}
+
+
+def terminator_and_arity(P, R):
+    """MPT.3: before any dispatch the slot after the last token is NULL (or the vector is full): a
+    handler that is given argv[k] with argc == k must see NULL, not a pointer into an earlier, freed line.
+    TAB.1: per IAuth message, the words the protocol requires are counted before they are used."""
+    from .. import core
+    fn = reader(P)
+    argc, argv, extent = find_vec(fn)
+    rd, disp = core.reader_dispatch(P)
+
+    def on_event(st, s):
+        ev = s.ev
+        if ev['k'] == 'store' and is_var(ev.get('lhs'), argc):
+            return 'open'
+        if ev['k'] == 'store' and ev['lhs'].get('k') == 'idx' and is_var(ev['lhs']['base'], argv):
+            ix = ev['lhs']['index']
+            if is_var(ix, argc) and const_of(ev.get('rhs')) == 0:
+                return 'terminated'
+            if not (ix.get('k') == 'un' or is_var(ix)):
+                return st
+            return 'open'
+        if ev['k'] == 'call' and any(is_var(a, argv) for a in ev['args']) and (ev.get('callee') or '') in ('memset',):
+            return st
+        return st
+
+    def on_edge(st, e):
+        r = rules.edge_rel(e)
+        if r and is_var(r[0], argc) and r[1] == '>=' and const_of(r[2]) is not None and const_of(r[2]) >= extent and st == 'open':
+            return 'full'
+        return st
+    before, _, _, _ = fn.forward('open', on_event, on_edge)
+    for s, h, vs in disp:
+        if not any(x.get('k') == 'idx' and is_var(x['base'], argv) for a in s.ev['args'] for x in walk(a)) and not any(is_var(a, argv) for a in s.ev['args']):
+            continue
+        sts = before.get(s.key, set())
+        R.ob('C08.MPT.3', bool(sts) and sts <= {'terminated', 'full'}, s, 'when %s is dispatched the argument vector is NULL-terminated for this line (states: %s)' % (h.name, sorted(sts)), key='terminated:%s' % h.name)
+    R.floor('C08.MPT.3', 6)
+    # arity table
+    for s, h, vs in disp:
+        for v in vs or []:
+            need = MIN_ARGC.get(chr(v))
+            if need is None:
+                continue
+            # the count established either in the reader before the call or at the top of the handler
+            est = -1
+            for g in fn.guards(s.bid):
+                k = rules.lower_bound_from_rel(g, argc)
+                if k is not None:
+                    est = max(est, k)
+            pi = [j for j, a in enumerate(s.ev['args']) if is_var(a, argc)]
+            if pi and pi[0] < len(h.params):
+                pc = h.params[pi[0]]
+                # first use of the vector in the handler is dominated by the count test
+                uses = [t for t in h.sites() if any(x.get('k') == 'idx' and is_var(x['base']) and x['base'].get('t', '').startswith('char *') and x['base']['name'] in h.params for ex in rules.event_exprs(t.ev) for x in walk(ex))]
+                best = None
+                for t in uses:
+                    b = -1
+                    for g in h.guards(t.bid):
+                        k = rules.lower_bound_from_rel(g, pc)
+                        if k is not None:
+                            b = max(b, k)
+                    best = b if best is None else min(best, b)
+                if best is not None:
+                    est = max(est, best)
+            R.ob('C08.TAB.1', est + 1 >= need, s, 'message %s needs %d words; %d are established before its parameters are used' % (chr(v), need, est + 1), key='arity:%s' % chr(v))
+    R.floor('C08.TAB.1', 9)
 
 
 def eof_exit(P, R):
@@ -350,4 +425,10 @@ def run(P, R, tier):
     line_lifetime(P, R)
     uar.check(P, R, 'C08.UAR.1')
     junk_inert(P, R)
+    terminator_and_arity(P, R)
+    # a timer that outlives its request fires on freed memory: the timer lives exactly as long as the request
+    from . import c10
+    cl = c10.cleanup_fn(P, Remap(R, {'C10.MPT.1': 'C08.TMR.1', 'C10.WIRE.1': 'C08.TMR.1'}))
+    c10.timer_lifecycle(P, Remap(R, {'C10.WMC.2': 'C08.TMR.1'}), cl)
+    c10.table_sites(P, Remap(R, {'C10.WMC.1': 'C08.TMR.2'}))
     return EXPLANATION, ASSUMPTIONS
